@@ -21,14 +21,14 @@ Theorem C03_layout_independent : forall esc splitter t1 t2 width c0 c1 dw md,
 Proof. exact wrap_canonical_collapse. Qed.
 Print Assumptions C03_layout_independent.
 
-Theorem C03_function_of_the_words : forall esc t1 t2 width c0 c1 md, 0 < width ->
+Theorem C03_function_of_the_words : forall esc t1 t2 width c0 c1 md,
   split_ws t1 = split_ws t2 ->
   wrap_paragraph_lines esc split_ws t1 width c0 c1 true true md =
   wrap_paragraph_lines esc split_ws t2 width c0 c1 true true md.
 Proof. exact wrap_canonical_words. Qed.
 Print Assumptions C03_function_of_the_words.
 
-Theorem C03_any_width_then_target_width : forall esc esc' text w1 a0 a1 w2 c0 c1 md, 0 < w2 ->
+Theorem C03_any_width_then_target_width : forall esc esc' text w1 a0 a1 w2 c0 c1 md,
   wrap_paragraph_lines esc split_ws
     (join [nl] (wrap_paragraph_lines esc' split_ws text w1 a0 a1 true true false)) w2 c0 c1 true true md
   = wrap_paragraph_lines esc split_ws text w2 c0 c1 true true md.
